@@ -185,3 +185,23 @@ def run(cx):
         for s_ in hits:
             cx.check('C04.G3', bool(re.match(r"^Option::Some\(cast<u16>\(<Iter<'a;T> as Iterator>::next\(arg1\.name_pointers\)@Some\.0\.0\)\)$", s_.term)), g.path, s_.key(),
                      'pointer-is-the-offset-stored-with-the-matching-candidate', s_.term, s_.loc)
+
+    # ---------------------------------------------------------------- G4 text parsing judges lengths on the wire form only
+    # a legal name can print to more than 255 characters (`\.` and `\DDD` escapes take 2-4 characters per octet): the text parser must
+    # not reject on the length of the presentation string.  Every length error of Name::from_encoded_str is one propagated from the
+    # guarded builders (to_label / append_label / append_name / append_domain); the function constructs no length error of its own
+    # and never compares the input's character count with a name or label limit.
+    fe = cx.fn('C04.G4', 'hickory_proto::rr::domain::name::Name::from_encoded_str')
+    if fe:
+        own = [s for s in cx.returns(fe, r'.') if re.search(r'DecodeError::(DomainNameTooLong|LabelBytesTooLong)\(', s.term) and not re.search(r'from_residual\(', s.term)]
+        cx.check('C04.G4', not own, fe.path, 'returns', 'no-length-error-from-the-text-form', '; '.join(f'{s.term[:90]} @ {s.loc}' for s in own))
+        bad = []
+        for bi in range(len(fe.blocks)):
+            for t_, ps in (fe.edge_props(bi) or {}).items():
+                for p_ in ps:
+                    sp = shorten(p_)
+                    if re.search(r'str::len\(|String::len\(|Chars.*count\(', sp) and re.search(r'MAX_LENGTH|MAX_LABEL|\b255\b|\b63\b|\b253\b', sp):
+                        bad.append(f'{sp[:100]} @ {fe.loc(bi)}')
+        cx.check('C04.G4', not bad, fe.path, 'guards', 'no-limit-test-on-the-character-count', '; '.join(sorted(set(bad))[:3]))
+        prop = [s for s in cx.returns(fe, r'from_residual\(try\((LabelEnc::to_label|Name::append_label|Name::append_name|Name::append_domain)\(')]
+        cx.floor('C04.G4', len(prop), 3, 'length/label errors of from_encoded_str propagated from the guarded builders')
